@@ -41,6 +41,10 @@ pub struct Seen {
     pub syncs: u64,
     pub handler_order_hash: u64,
     pub suspended_handlers: u64,
+    /// C02: pairs (s1, s3) of sends to one recipient with s1 happens-before s3.
+    pub causal_pairs: u64,
+    /// ... of which the two sends were issued by different models (chains).
+    pub causal_pairs_indirect: u64,
 }
 
 struct Index<'a> {
@@ -472,6 +476,7 @@ pub fn check_trace(tr: &Trace, pred: Option<&(CmdPred, Vec<CmdPred>, Vec<Vec<T>>
 
     // ---------------------------------------------------------------- C07: same-time same-origin order
     check_c07(tr, &ix, &mut out, &mut seen);
+    check_c02(tr, &ix, &mut out, &mut seen);
 
     // ---------------------------------------------------------------- coverage: blocked senders, order hash
     {
@@ -658,6 +663,261 @@ fn check_c07(tr: &Trace, ix: &Index, out: &mut Vec<Finding>, seen: &mut Seen) {
                     kinds
                 ),
             ));
+        }
+    }
+}
+
+
+// -------------------------------------------------------------------- C02: causal message ordering
+/// Builds the happens-before graph over the recorded model events and checks
+/// that every recipient processes two messages in the order of their sends
+/// whenever the first send *completed* before the second one *began* in that
+/// graph.
+///
+/// Edges (only those the statement lists):
+///  * program order of one model: its init/handler/port-operation events in
+///    stamp order (a model's computations are sequential and all of them are
+///    logged from inside the model);
+///  * send -> processing: `OpBegin` of a port operation -> `HBegin` of each
+///    recipient invocation handling one of its messages;
+///  * reply: `HEnd` of a replier invocation -> `OpEnd` of the query operation.
+/// Deliveries of one operation are not ordered among themselves.
+///
+/// Sound: every edge is a real happens-before edge (the `OpBegin` event is
+/// logged before the send is issued, `HBegin` after the message was popped,
+/// `HEnd` before the reply is returned, `OpEnd` after the send future
+/// completed), and an `Output::send`/`Requestor::send` future completes only
+/// after the message sits in every recipient mailbox, so "s1 completed
+/// happens-before s3 began" implies M1 precedes M3 in the recipient's FIFO
+/// mailbox. Ambiguous deliveries (same uid reaching the same model more than
+/// once) take no part.
+fn check_c02(tr: &Trace, ix: &Index, out: &mut Vec<Finding>, seen: &mut Seen) {
+    c02_core(tr, ix.events, out, seen, &mut None);
+}
+
+/// Self-test of the C02 oracle on real data: takes the first pair of causally
+/// ordered sends issued by different models in this (violation-free) trace,
+/// exchanges the two recipient invocations in a copy of the log, and reports
+/// whether the oracle flags the tampered log. `None` when the trace has no
+/// such pair.
+pub fn c02_selftest(tr: &Trace) -> Option<bool> {
+    let mut pair = Some((usize::MAX, usize::MAX));
+    let mut out = Vec::new();
+    c02_core(tr, &tr.events, &mut out, &mut Seen::default(), &mut pair);
+    let (a, b) = pair?;
+    if a == usize::MAX || !out.is_empty() {
+        return None;
+    }
+    let mut evs = tr.events.clone();
+    let (ea, eb) = (evs[a].ev.clone(), evs[b].ev.clone());
+    let (ua, ub) = match (&ea, &eb) {
+        (Ev::HBegin { uid: ua, .. }, Ev::HBegin { uid: ub, .. }) => (*ua, *ub),
+        _ => return None,
+    };
+    evs[a].ev = eb;
+    evs[b].ev = ea;
+    // Keep the HEnd records consistent with the exchanged HBegin records.
+    let node = match &evs[a].ev {
+        Ev::HBegin { node, .. } => *node,
+        _ => return None,
+    };
+    for (start, new_uid, old_uid) in [(a, ub, ua), (b, ua, ub)] {
+        for r in evs[start + 1..].iter_mut() {
+            if let Ev::HEnd { node: n, uid } = &mut r.ev {
+                if *n == node && *uid == old_uid {
+                    *uid = new_uid;
+                    break;
+                }
+            }
+        }
+    }
+    let mut out = Vec::new();
+    c02_core(tr, &evs, &mut out, &mut Seen::default(), &mut None);
+    Some(!out.is_empty())
+}
+
+fn c02_core(tr: &Trace, evs: &[Rec], out: &mut Vec<Finding>, seen: &mut Seen, first_indirect: &mut Option<(usize, usize)>) {
+    use crate::bench::Target;
+    let spec = &tr.spec;
+    // Model events, in stamp order (events are sorted by stamp).
+    let node_of = |e: &Ev| -> Option<u32> {
+        match e {
+            Ev::InitBegin { node, .. } | Ev::InitEnd { node } | Ev::HBegin { node, .. } | Ev::HEnd { node, .. } | Ev::OpBegin { node, .. } | Ev::OpEnd { node, .. } => Some(*node),
+            _ => None,
+        }
+    };
+    let idx: Vec<usize> = (0..evs.len()).filter(|i| node_of(&evs[*i].ev).is_some()).collect();
+    if idx.len() < 4 || idx.len() > 20_000 {
+        return;
+    }
+    let pos: HashMap<usize, usize> = idx.iter().enumerate().map(|(k, i)| (*i, k)).collect();
+    let n = idx.len();
+    let mut preds: Vec<Vec<usize>> = vec![Vec::new(); n];
+    // Program order.
+    let mut last: HashMap<u32, usize> = HashMap::new();
+    for (k, i) in idx.iter().enumerate() {
+        let nd = node_of(&evs[*i].ev).unwrap();
+        if let Some(p) = last.insert(nd, k) {
+            preds[k].push(p);
+        }
+    }
+    // Handler invocations by (node, uid, query): positions of HBegin (and matching HEnd).
+    let mut hbegin: HashMap<(u32, u64, bool), Vec<usize>> = HashMap::new();
+    let mut hend_of: HashMap<usize, usize> = HashMap::new();
+    {
+        let mut open: HashMap<u32, usize> = HashMap::new();
+        for (k, i) in idx.iter().enumerate() {
+            match &evs[*i].ev {
+                Ev::HBegin { node, uid, query, .. } => {
+                    hbegin.entry((*node, *uid, *query)).or_default().push(k);
+                    open.insert(*node, k);
+                }
+                Ev::HEnd { node, .. } => {
+                    if let Some(b) = open.remove(node) {
+                        hend_of.insert(b, k);
+                    }
+                }
+                _ => {}
+            }
+        }
+    }
+    // Port operations.
+    struct Op {
+        begin: usize,
+        end: Option<usize>,
+        sender: u32,
+        /// (recipient, position of its HBegin)
+        deliveries: Vec<(u32, usize)>,
+    }
+    let mut ops: Vec<Op> = Vec::new();
+    let mut open_ops: HashMap<(u32, u64, u8), usize> = HashMap::new();
+    for (k, i) in idx.iter().enumerate() {
+        match &evs[*i].ev {
+            Ev::OpBegin { node, huid, idx: oi, query, port, base } => {
+                let ns = match spec.nodes.get(*node as usize) {
+                    Some(ns) => ns,
+                    None => continue,
+                };
+                let conns = if *query { ns.reqs.get(*port as usize) } else { ns.outs.get(*port as usize) };
+                let mut deliveries = Vec::new();
+                let mut per_target: HashMap<(u32, u64), u32> = HashMap::new();
+                if let Some(conns) = conns {
+                    for (ci, c) in conns.iter().enumerate() {
+                        if let (Target::Node(t), Some(u)) = (&c.target, c.deliver(*base, ci)) {
+                            *per_target.entry((*t as u32, u)).or_insert(0) += 1;
+                        }
+                    }
+                }
+                for ((t, u), cnt) in per_target {
+                    if cnt != 1 {
+                        continue; // ambiguous
+                    }
+                    if let Some(hs) = hbegin.get(&(t, u, *query)) {
+                        if hs.len() == 1 && hs[0] > k {
+                            deliveries.push((t, hs[0]));
+                        }
+                    }
+                }
+                open_ops.insert((*node, *huid, *oi), ops.len());
+                ops.push(Op { begin: k, end: None, sender: *node, deliveries });
+            }
+            Ev::OpEnd { node, huid, idx: oi, .. } => {
+                if let Some(o) = open_ops.remove(&(*node, *huid, *oi)) {
+                    ops[o].end = Some(k);
+                }
+            }
+            _ => {}
+        }
+    }
+    if ops.len() < 2 {
+        return;
+    }
+    for o in &ops {
+        for (_, h) in &o.deliveries {
+            preds[*h].push(o.begin);
+            // Reply edge (queries): HEnd of the replier -> OpEnd.
+            if let (Some(e), Some(he)) = (o.end, hend_of.get(h)) {
+                if matches!(evs[idx[o.begin]].ev, Ev::OpBegin { query: true, .. }) {
+                    if *he < e {
+                        preds[e].push(*he);
+                    } else {
+                        // C14: a query returns only after all its repliers have replied.
+                        // Sound: HEnd is logged before the reply value is returned,
+                        // OpEnd after the query future yielded all replies.
+                        out.push(f("C14", "C14/query-completed-before-replier-ended", format!("query operation {:?} completed at stamp {} before its replier ended: {:?} at {}", evs[idx[o.begin]].ev, evs[idx[e]].stamp, evs[idx[*he]].ev, evs[idx[*he]].stamp)));
+                    }
+                }
+            }
+        }
+    }
+    // reach[k] = set of operations whose OpEnd happens-before (or is) event k.
+    let words = (ops.len() + 63) / 64;
+    let mut reach: Vec<Vec<u64>> = vec![Vec::new(); n];
+    let mut end_at: HashMap<usize, usize> = HashMap::new();
+    for (oi, o) in ops.iter().enumerate() {
+        if let Some(e) = o.end {
+            end_at.insert(e, oi);
+        }
+    }
+    for k in 0..n {
+        let mut r = vec![0u64; words];
+        for p in &preds[k] {
+            if *p < k {
+                for w in 0..words {
+                    r[w] |= reach[*p][w];
+                }
+            }
+        }
+        if let Some(oi) = end_at.get(&k) {
+            r[oi / 64] |= 1 << (oi % 64);
+        }
+        reach[k] = r;
+    }
+    // Deliveries per recipient of each op.
+    for (o3i, o3) in ops.iter().enumerate() {
+        if o3.deliveries.is_empty() {
+            continue;
+        }
+        let r = &reach[o3.begin];
+        for (o1i, o1) in ops.iter().enumerate() {
+            if o1i == o3i || r[o1i / 64] & (1 << (o1i % 64)) == 0 {
+                continue;
+            }
+            for (b3, h3) in &o3.deliveries {
+                for (b1, h1) in &o1.deliveries {
+                    if b1 != b3 {
+                        continue;
+                    }
+                    seen.causal_pairs += 1;
+                    if o1.sender != o3.sender {
+                        seen.causal_pairs_indirect += 1;
+                        if let Some(fp) = first_indirect {
+                            if fp.0 == usize::MAX && h1 < h3 {
+                                *fp = (idx[*h1], idx[*h3]);
+                            }
+                        }
+                    }
+                    if h1 > h3 {
+                        let d = |k: usize| format!("{}:{:?}", evs[idx[k]].stamp, evs[idx[k]].ev);
+                        out.push(f(
+                            "C02",
+                            if o1.sender == o3.sender { "C02/same-sender-order-violated" } else { "C02/causal-chain-order-violated" },
+                            format!(
+                                "recipient {}: send [{} .. {}] completed before send [{}] began (happens-before path), but the recipient processed the second message first: {} before {}",
+                                b1,
+                                d(o1.begin),
+                                o1.end.map(d).unwrap_or_default(),
+                                d(o3.begin),
+                                d(*h3),
+                                d(*h1)
+                            ),
+                        ));
+                        if out.len() > 50 {
+                            return;
+                        }
+                    }
+                }
+            }
         }
     }
 }
